@@ -1,0 +1,23 @@
+//go:build verif
+
+package c13
+
+import (
+	"net"
+
+	"github.com/lni/dragonboat/v4/config"
+	"github.com/lni/dragonboat/v4/internal/rsm"
+	"github.com/lni/dragonboat/v4/internal/transport"
+	pb "github.com/lni/dragonboat/v4/raftpb"
+)
+
+// ServeConn is transport.VerifC13ServeConn: the real per-connection loop.
+func ServeConn(nhConfig config.NodeHostConfig, conn net.Conn,
+	onBatch func(pb.MessageBatch), onChunk func(pb.Chunk) bool) {
+	transport.VerifC13ServeConn(nhConfig, conn, onBatch, onChunk)
+}
+
+// HandleBatch is rsm.VerifC13HandleBatch: the real batched apply decode path.
+func HandleBatch(input []pb.Entry) ([][]byte, error) {
+	return rsm.VerifC13HandleBatch(input)
+}
